@@ -553,6 +553,7 @@ fn read_from_path(format: Format, bytes: &[u8], sets: bool) -> Result<PathRun, c
     use seq_io::{fasta, fastq};
     let f = fmt_name(format);
     let path = std::env::temp_dir().join(format!("seqio_verif_c09_{}_{:?}", std::process::id(), std::thread::current().id()).replace(|ch: char| !ch.is_ascii_alphanumeric() && ch != '_', "_"));
+    let _cleanup = crate::util::TempPath(path.clone());
     if let Err(e) = std::fs::write(&path, bytes) {
         fail!("harness/tempfile", "cannot write {}: {}", path.display(), e);
     }
